@@ -178,10 +178,103 @@ Theorem C20_save_mutate_restore_frames : forall (V R : Type) (mutate : list V ->
   fst (save_mutate_restore mutate observe h p) = h.
 Proof. exact save_mutate_restore_frames. Qed.
 
+(** a Spectrum is a PAIR of buffers (data, mask).  The arithmetic operators (fs*c, c*fs, fs/c, fs+1, 1-fs, fs**2, fs*ndarray, ...)
+    whose constructor call copies: every array that existed before is unchanged, BOTH buffers of the result are new addresses ... *)
+Theorem C20_arith_copy_frames_both_buffers : forall (V : Type) (op : list V -> list V) (h : heap V) s,
+  s_data s < length h -> s_mask s < length h ->
+  let (h', r) := arith_copy op h s in
+  (forall a, a < length h -> read h' a = read h a) /\
+  length h <= s_data r /\ length h <= s_mask r /\ s_data r <> s_mask r /\
+  s_data r < length h' /\ s_mask r < length h' /\
+  read h' (s_data r) = op (read h (s_data s)) /\ read h' (s_mask r) = read h (s_mask s).
+Proof. exact arith_copy_frames_both_buffers. Qed.
+Print Assumptions C20_arith_copy_frames_both_buffers.
+
+(** ... so whatever is later written through either buffer of the result (scaled.mask[1,:] = True, mask_corners(), acc += b)
+    leaves the operand bit for bit what it was, and every later computation on it (any function of its data and mask: ll,
+    ll_multinom, S, sum) returns what it returned before ... *)
+Theorem C20_arith_copy_result_edit_frames_operand : forall (V : Type) (op : list V -> list V) (h : heap V) s,
+  s_data s < length h -> s_mask s < length h ->
+  let (h', r) := arith_copy op h s in
+  forall b, (forall a, a < length h -> read (write h' (s_mask r) b) a = read h a) /\
+            (forall a, a < length h -> read (write h' (s_data r) b) a = read h a).
+Proof. exact arith_copy_result_edit_frames_operand. Qed.
+
+Theorem C20_arith_copy_later_results_unchanged : forall (V : Type) (op : list V -> list V) (O : Type) (obs : list V -> list V -> O) (h : heap V) s,
+  s_data s < length h -> s_mask s < length h ->
+  let (h', r) := arith_copy op h s in
+  forall b, observe_spectrum obs (write h' (s_mask r) b) s = observe_spectrum obs h s /\
+            observe_spectrum obs (write h' (s_data r) b) s = observe_spectrum obs h s.
+Proof. exact arith_copy_later_results_unchanged. Qed.
+Print Assumptions C20_arith_copy_later_results_unchanged.
+
+(** ... and the mirror: later writes through the operand's buffers leave both buffers of the result alone *)
+Theorem C20_arith_copy_operand_edit_frames_result : forall (V : Type) (op : list V -> list V) (h : heap V) s,
+  s_data s < length h -> s_mask s < length h ->
+  let (h', r) := arith_copy op h s in
+  forall b, read (write h' (s_mask s) b) (s_mask r) = read h' (s_mask r) /\
+            read (write h' (s_mask s) b) (s_data r) = read h' (s_data r) /\
+            read (write h' (s_data s) b) (s_mask r) = read h' (s_mask r) /\
+            read (write h' (s_data s) b) (s_data r) = read h' (s_data r).
+Proof. exact arith_copy_operand_edit_frames_result. Qed.
+
+(** the constructor called with copy=False: the result's data is new but its mask address IS the operand's; a write through
+    one is read back through the other ... *)
+Theorem C20_arith_nocopy_shares_mask : forall (V : Type) (op : list V -> list V) (h : heap V) s,
+  s_data s < length h -> s_mask s < length h ->
+  let (h', r) := arith_nocopy op h s in
+  s_mask r = s_mask s /\ s_data r = length h /\ read h' (s_data r) = op (read h (s_data s)) /\
+  (forall a, a < length h -> read h' a = read h a) /\
+  forall b, read (write h' (s_mask r) b) (s_mask s) = b /\ read (write h' (s_mask s) b) (s_mask r) = b.
+Proof. exact arith_nocopy_shares_mask. Qed.
+
+(** ... with the same VALUES as the copying constructor (no single call shows the difference) ... *)
+Theorem C20_arith_protocols_same_value : forall (V : Type) (op : list V -> list V) (h : heap V) s,
+  s_data s < length h -> s_mask s < length h ->
+  read (fst (arith_copy op h s)) (s_data (snd (arith_copy op h s))) =
+    read (fst (arith_nocopy op h s)) (s_data (snd (arith_nocopy op h s))) /\
+  read (fst (arith_copy op h s)) (s_mask (snd (arith_copy op h s))) =
+    read (fst (arith_nocopy op h s)) (s_mask (snd (arith_nocopy op h s))).
+Proof. exact arith_protocols_same_value. Qed.
+
+(** ... refuted as a history-independent protocol: masking an entry of the result changes sum() of the operand *)
+Theorem C20_arith_nocopy_refuted :
+  exists (op : list nat -> list nat) (h : heap nat) (s : spectrum) (b : list nat),
+    s_data s < length h /\ s_mask s < length h /\
+    let (h', r) := arith_nocopy op h s in
+    s_mask r = s_mask s /\
+    read (write h' (s_mask r) b) (s_mask s) <> read h (s_mask s) /\
+    observe_spectrum msum (write h' (s_mask r) b) s <> observe_spectrum msum h s.
+Proof. exact arith_nocopy_refuted. Qed.
+Print Assumptions C20_arith_nocopy_refuted.
+
+Theorem C20_arith_nocopy_aliases_always : forall (V : Type) (op : list V -> list V) (h : heap V) s b,
+  s_data s < length h -> s_mask s < length h -> b <> read h (s_mask s) ->
+  let (h', r) := arith_nocopy op h s in read (write h' (s_mask r) b) (s_mask s) <> read h (s_mask s).
+Proof. exact arith_nocopy_aliases_always. Qed.
+
+(** the operator protocol extracted from the source is history-independent exactly when its constructor copies *)
+Theorem C20_arith_frames_iff_copies : forall pr : arith_protocol,
+  (forall (h : heap nat) s b, s_data s < length h -> s_mask s < length h ->
+     let (h', r) := arith (map (fun x => 2 * x)) pr h s in
+     observe_spectrum msum (write h' (s_mask r) b) s = observe_spectrum msum h s) <-> ctor_copies pr = true.
+Proof. exact arith_frames_iff_copies. Qed.
+Print Assumptions C20_arith_frames_iff_copies.
+
 (** non-vacuity: a three-call history through the projection cache repeats a key and is answered from the dictionary;
     the copy protocol on a two-array heap leaves both arrays alone and returns a third *)
 Example C20_nonvacuous :
   nrun [] [(7, 70); (8, 80); (7, 70)]%N = ([(8, 80); (7, 70)], [70; 80; 70])%N /\
   integ_copy (map S) [[1; 2]; [5]] 0 = ([[1; 2]; [5]; [2; 3]], 2) /\
   integ_inplace (map S) [[1; 2]; [5]] 0 = ([[2; 3]; [5]], 0).
+Proof. repeat split. Qed.
+
+(** non-vacuity of the two-buffer model: fs = (data [3;5;7], mask [1;0;0]); 2*fs with the copying constructor returns data and
+    mask at the new addresses 3 and 4 (2 is the temporary), with copy=False data at 2 and the operand's own mask address 1 *)
+Example C20_arith_nonvacuous :
+  arith_copy (map (fun x => 2 * x)) [[3; 5; 7]; [1; 0; 0]] {| s_data := 0; s_mask := 1 |} =
+    ([[3; 5; 7]; [1; 0; 0]; [6; 10; 14]; [6; 10; 14]; [1; 0; 0]], {| s_data := 3; s_mask := 4 |}) /\
+  arith_nocopy (map (fun x => 2 * x)) [[3; 5; 7]; [1; 0; 0]] {| s_data := 0; s_mask := 1 |} =
+    ([[3; 5; 7]; [1; 0; 0]; [6; 10; 14]], {| s_data := 2; s_mask := 1 |}) /\
+  observe_spectrum msum [[3; 5; 7]; [1; 0; 0]] {| s_data := 0; s_mask := 1 |} = 12.
 Proof. repeat split. Qed.
